@@ -71,6 +71,29 @@ class C19(Prop):
                                          list_flags=[(sb, False)] * (len(cuts) + 1))
                     meta.update(gid=gid, role='listE%d' % k)
                     out.append((req, meta))
+        # systematically: every ordered pair of traits on a one-field struct (an entry must not depend on whether an
+        # earlier entry of the list was dumped)
+        names = ['Clone', 'Copy', 'Deref', 'DerefMut', 'Debug', 'Default', 'PartialEq', 'Eq', 'PartialOrd', 'Ord', 'Hash',
+                 'Add', 'AddAssign', 'Neg']
+        gid = 10 ** 6
+        for a in names:
+            for b in names:
+                if a == b:
+                    continue
+                gid += 1
+                generic = gid % 2 == 0
+                item = sx.struct('X', sx.unnamed([sx.field(sx.tid('T') if generic else sx.tid('u8'))]),
+                                 gen=sx.generics([sx.gp_ty('T')]) if generic else None)
+                plan = dict(item=item, items=[(a, None), (b, None)], shared_bound=None, shared_dump=False,
+                            traits=[a, b], enum=False, feats={'pair'})
+                mode = 'attr' if gid % 4 < 2 else 'derive'
+                for role, its, sd in (('plain', [(a, None), (b, None)], False),
+                                      ('dump0', [(a, (None, True)), (b, None)], False),
+                                      ('dump1', [(a, None), (b, (None, True))], False),
+                                      ('shared', [(a, None), (b, None)], True)):
+                    req, meta = assemble(dict(plan, shared_dump=sd), mode, items=its, extra_feats=['pair-' + role])
+                    meta.update(gid=gid, role=role, idx=0)
+                    out.append((req, meta))
         base = self.n(tier)
         for k in range(self.n(tier) // 2):
             req, meta = gi.impl_item()
